@@ -2,6 +2,7 @@ package main
 
 import (
 	"encoding/json"
+	"os/exec"
 	"flag"
 	"fmt"
 	"go/types"
@@ -266,6 +267,29 @@ func cmdCheck(args []string) int {
 		for _, o := range v.obls {
 			jobs = append(jobs, job{v, o})
 		}
+		// refinement of interface contracts
+		if fn.Signature.Recv() != nil {
+			rt := fn.Signature.Recv().Type()
+			for _, ic := range db.Contracts {
+				if ic.Extern || !strings.HasSuffix(ic.Key, "."+fn.Name()) || ic == c {
+					continue
+				}
+				it := eng.namedType(strings.TrimSuffix(ic.Key, "."+fn.Name()))
+				if it == nil {
+					continue
+				}
+				iface, ok := it.Underlying().(*types.Interface)
+				if !ok || !types.Implements(rt, iface) {
+					continue
+				}
+				rv := eng.VerifyRefinement(fn, c, ic, it)
+				fvs = append(fvs, rv)
+				fvReport[rv] = r
+				for _, o := range rv.obls {
+					jobs = append(jobs, job{rv, o})
+				}
+			}
+		}
 	}
 	for _, ax := range lemmas {
 		v := eng.VerifyLemma(ax)
@@ -384,6 +408,15 @@ func cmdCheck(args []string) int {
 			fmt.Printf("    %s  [%s]\n    %v\n", o.Text, o.Pos, o.Res.Details)
 		}
 	}
+	bounded := runBounded(*verif, *prop, *tier)
+	for _, bs := range bounded {
+		if ok, _ := bs["ok"].(bool); !ok {
+			fmt.Printf("ASSUMPTION-CHECK-FAILED property=%s bounded stand-in %v failed: %v\n", *prop, bs["name"], bs["output"])
+			violations++
+			path := writeReplay(replayDir, "bounded."+mangle(fmt.Sprint(bs["name"])), fmt.Sprintf("bounded validation %v failed\n%v\n", bs["name"], bs["output"]))
+			fmt.Printf("VIOLATION property=%s replay=%s obligation=bounded.%v no-failing-input-found\n", *prop, path, bs["name"])
+		}
+	}
 	wall := time.Since(start).Seconds()
 	fmt.Printf("property %s: %d obligations, %d discharged, %d known findings, %d violations; load %.1fs gen %.1fs solver %.1fs wall %.1fs\n",
 		*prop, total, discharged, len(knownHit), violations, loadS, genS, solverTime, wall)
@@ -413,6 +446,7 @@ func cmdCheck(args []string) int {
 				"unbound_contracts":        unbound,
 				"engine_notes":             notes,
 				"spec_files":               relFiles(db.Files),
+				"bounded_standins":         bounded,
 			},
 			"assumptions": assumptionsFor(*prop, db, tb),
 			"wall_s":      round3(wall),
@@ -492,5 +526,50 @@ func assumptionsFor(prop string, db *SpecDB, tb []string) []string {
 	out = append(out, "termination is not proved unless a decreases clause is listed; partial correctness otherwise",
 		"logging, metrics and wall-clock reads are treated as having no effect on verified state",
 		"memory exhaustion and goroutine scheduling outside declared locks are not modelled")
+	return out
+}
+
+func (e *Engine) namedType(key string) types.Type {
+	i := strings.LastIndex(key, ".")
+	if i < 0 {
+		return nil
+	}
+	for _, p := range e.prog.AllPackages() {
+		if p.Pkg.Path() == key[:i] {
+			if o := p.Pkg.Scope().Lookup(key[i+1:]); o != nil {
+				if tn, ok := o.(*types.TypeName); ok {
+					return tn.Type()
+				}
+			}
+		}
+	}
+	return nil
+}
+
+// runBounded runs the bounded stand-ins registered for a property. They are labelled
+// bounded in the evidence and never counted as discharged obligations.
+func runBounded(verif, prop, tier string) []map[string]interface{} {
+	b, err := os.ReadFile(filepath.Join(verif, "bounded", "registry.json"))
+	if err != nil {
+		return nil
+	}
+	var reg map[string][]struct {
+		Name, Dir, Bound string
+		Cmd              []string
+		StandsInFor      string `json:"stands_in_for"`
+	}
+	if json.Unmarshal(b, &reg) != nil {
+		return nil
+	}
+	var out []map[string]interface{}
+	for _, e := range reg[prop] {
+		cmd := exec.Command(e.Cmd[0], e.Cmd[1:]...)
+		cmd.Dir = e.Dir
+		cmd.Env = append(os.Environ(), "GOFLAGS=-mod=mod", "GOPROXY=off", "GOSUMDB=off", "GOTOOLCHAIN=local", "VERIF_TIER="+tier)
+		t0 := time.Now()
+		o, err := cmd.CombinedOutput()
+		out = append(out, map[string]interface{}{"name": e.Name, "label": "bounded (not a proof, not counted in discharged)", "bound": e.Bound, "stands_in_for": e.StandsInFor,
+			"cmd": strings.Join(e.Cmd, " "), "ok": err == nil, "output": truncate(strings.TrimSpace(string(o)), 1500), "wall_s": round3(time.Since(t0).Seconds())})
+	}
 	return out
 }
